@@ -30,10 +30,11 @@ Theorem C03_segmentation_independent : forall segs,
 Proof. exact segmentation_independent. Qed.
 Print Assumptions C03_segmentation_independent.
 
+Definition accepted (s : bytes) : bool := match parse_request s with Ok _ => true | _ => false end.
 Example C03_ex_split_authority :
   parse_request (bs "CONNECT exam") = Err EEof /\
-  exists r, parse_request (bs "CONNECT example.com:443 HTTP/1.1" ++ [x0d;x0a;x0d;x0a]) = Ok r.
-Proof. split; [vm_compute; reflexivity | eexists; vm_compute; reflexivity]. Qed.
+  accepted (bs "CONNECT example.com:443 HTTP/1.1" ++ [x0d;x0a;x0d;x0a]) = true.
+Proof. split; vm_compute; reflexivity. Qed.
 Example C03_ex_high_byte_any_alignment :
   parse_request (bs "GET /?a" ++ [x80]) = Err EStatus /\
   parse_request (bs "GET /?a" ++ [x80] ++ bs " HTTP/1.1" ++ [x0d;x0a;x0d;x0a]) = Err EStatus.
